@@ -586,11 +586,13 @@ package exif2
 //@   modifies as(p, "*exif2.ifdReader").po, stream(as(p, "*exif2.ifdReader").reader), as(p, "*exif2.ifdReader").buffer.buf, as(p, "*exif2.ifdReader").Exif
 //@   ensures pos(as(p, "*exif2.ifdReader").reader) >= old(pos(as(p, "*exif2.ifdReader").reader))
 //@   ensures [C06] anchor(as(p, "*exif2.ifdReader")) == old(anchor(as(p, "*exif2.ifdReader")))
+//@   ensures [C06] old(as(p, "*exif2.ifdReader").exifLength != 0 && as(p, "*exif2.ifdReader").po <= as(p, "*exif2.ifdReader").exifLength) ==> as(p, "*exif2.ifdReader").po <= as(p, "*exif2.ifdReader").exifLength && trk(as(p, "*exif2.ifdReader")) == old(trk(as(p, "*exif2.ifdReader")))
 
 // Log marshaler of the pending-tag buffer (C15: code that only runs at low log levels must be safe, too).
 //@ func (*buffer).MarshalZerologArray
-//@   props C15 C01
+//@   props C15 C01 C02
 //@   requires b.len <= 84
+//@   loop 0 decreases b.len - i
 
 // C04: the slots at and beyond len hold what an earlier decode left in the pooled buffer; the look-ahead reports "no further
 // pending tag" (the zero Tag) instead of reading them.
